@@ -1,4 +1,5 @@
 import CalVerif.Lemmas.De
+import CalVerif.Model.DeData
 /-! # C09 — serde deserialization maps rows to records faithfully
     Property theorems only (helper lemmas live in `Lemmas/De.lean`; the model in `Model/De.lean`).
     `WF r`: `r` satisfies the rectangle invariant of C05 and its coordinates are `u32` values.
@@ -488,6 +489,159 @@ theorem convert_points :
     parseInt true (-128) 127 "+".toList = none ∧ parseInt true (-128) 127 "".toList = none ∧
     parseInt true (-128) 127 " 1".toList = none ∧ parseInt false 0 255 "007".toList = some 7 := by
   decide
+
+/-! ## `Data` as a deserialization target: `impl Deserialize for Data` -/
+
+/-- "`Data` round-trips through serde except …", as a table: deserializing a cell INTO `Data` through its cell
+    deserializer gives the cell back for `Int`, `Float`, `String`, `Bool`, `Empty`; a `DateTime` comes back as
+    the `Float` of its serial value, `DateTimeIso` / `DurationIso` as `String`; an `Error` cell is
+    `Err(CellError{kind, pos})`. -/
+theorem data_roundtrip_table (pos : Pos) :
+    (∀ v, dataOfCell (.int v) pos = .ok (.int v)) ∧
+    (∀ b, dataOfCell (.float b) pos = .ok (.float b)) ∧
+    (∀ s, dataOfCell (.string s) pos = .ok (.string s)) ∧
+    (∀ b, dataOfCell (.bool b) pos = .ok (.bool b)) ∧
+    dataOfCell .empty pos = .ok .empty ∧
+    (∀ b, dataOfCell (.dateTime b) pos = .ok (.float b)) ∧
+    (∀ s, dataOfCell (.dateTimeIso s) pos = .ok (.string s)) ∧
+    (∀ s, dataOfCell (.durationIso s) pos = .ok (.string s)) ∧
+    (∀ k, dataOfCell (.error k) pos = .err (.cellError k pos)) :=
+  ⟨fun _ => rfl, fun _ => rfl, fun _ => rfl, fun _ => rfl, rfl, fun _ => rfl, fun _ => rfl, fun _ => rfl,
+   fun _ => rfl⟩
+
+/-- the same as one equation: the image is `serdeImage`, unless the cell is an error -/
+theorem data_roundtrip (d : Data) (pos : Pos) :
+    dataOfCell d pos = (match d with
+      | .error k => .err (.cellError k pos)
+      | d => .ok (serdeImage d)) := by
+  cases d <;> rfl
+
+/-- the round trip is the identity exactly on `Int`, `Float`, `String`, `Bool`, `Empty` -/
+theorem data_roundtrip_identity_iff (d : Data) (pos : Pos) :
+    dataOfCell d pos = .ok d ↔
+      (match d with
+       | .dateTime _ | .dateTimeIso _ | .durationIso _ | .error _ => False
+       | _ => True) := by
+  cases d <;> simp [dataOfCell, convAny, dataVisitor, NumTy.signed]
+
+/-- `Option<Data>`: `Empty` is `None`, anything else `Some` of its image, an error cell still fails -/
+theorem opt_data_table (d : Data) (pos : Pos) :
+    optDataOfCell d pos = (match d with
+      | .empty => .ok none
+      | .error k => .err (.cellError k pos)
+      | d => .ok (some (serdeImage d))) := by
+  cases d <;> rfl
+
+/-- the visitor itself: which variant each `visit_*` builds. Unsigned values above `i64::MAX` wrap
+    (`value as i64`); `visit_bytes`, `visit_newtype_struct`, `visit_enum` are not implemented. -/
+theorem dataVisitor_table :
+    (∀ b, dataVisitor (.bool b) = .data (.bool b)) ∧
+    (∀ t v, t.signed = true → dataVisitor (.int t v) = .data (.int v)) ∧
+    (∀ t v, t.signed = false → 0 ≤ v → v ≤ 9223372036854775807 → dataVisitor (.int t v) = .data (.int v)) ∧
+    dataVisitor (.int .u64 18446744073709551615) = .data (.int (-1)) ∧
+    dataVisitor (.int .u64 9223372036854775808) = .data (.int (-9223372036854775808)) ∧
+    (∀ b, dataVisitor (.f64 b) = .data (.float b)) ∧
+    dataVisitor (.f32 0x3FC00000) = .data (.float 0x3FF8000000000000) ∧     -- 1.5f32
+    dataVisitor (.f32 0x00000001) = .data (.float 0x36A0000000000000) ∧     -- smallest f32 subnormal
+    dataVisitor (.f32 0xFF800000) = .data (.float 0xFFF0000000000000) ∧     -- -inf
+    (∀ s, dataVisitor (.str s) = .data (.string s)) ∧
+    (∀ c, dataVisitor (.char c) = .data (.string [c])) ∧
+    dataVisitor .unit = .data .empty ∧ dataVisitor .none = .data .empty ∧ dataVisitor .some = .again ∧
+    (∀ s, dataVisitor (.bytes s) = .invalidType) ∧ dataVisitor .newtype = .invalidType ∧
+    (∀ s, dataVisitor (.enum s) = .invalidType) := by
+  refine ⟨fun _ => rfl, ?_, ?_, by decide, by decide, fun _ => rfl, by decide, by decide, by decide,
+    fun _ => rfl, fun _ => rfl, rfl, rfl, rfl, fun _ => rfl, rfl, fun _ => rfl⟩
+  · intro t v h; simp [dataVisitor, h]
+  · intro t v h h0 h1
+    simp only [dataVisitor, h]
+    have : wrapInt .i64 v = v := by simp [wrapInt, NumTy.signed, NumTy.bits]; omega
+    simp [this]
+
+/-! ## the `deserialize_as_*` helpers -/
+
+/-- `deserialize_as_i64_or_none` / `deserialize_as_f64_or_none` on a cell that is not an error never fail: they
+    return the `as_i64` / `as_f64` accessor (`DataConv.viewData`) of the cell's serde image — so a `DateTime`
+    cell is read like the `Float` of its serial value and the ISO cells like `String`s; an error cell is
+    `CellError` at its position. -/
+theorem as_or_none_spec (σ : DataConv.Std) (d : Data) (pos : Pos) :
+    (d.isError = false →
+      asI64OrNone σ d pos = .ok (DataConv.viewData σ (toConv (serdeImage d))).asI64 ∧
+      asF64OrNone σ d pos = .ok (DataConv.viewData σ (toConv (serdeImage d))).asF64) ∧
+    (∀ k, d = .error k →
+      asI64OrNone σ d pos = .err (.cellError k pos) ∧ asF64OrNone σ d pos = .err (.cellError k pos)) := by
+  constructor
+  · intro h; cases d <;> first | exact ⟨rfl, rfl⟩ | simp [Data.isError] at h
+  · intro k h; subst h; exact ⟨rfl, rfl⟩
+
+/-- the table behind it, for `as_i64` -/
+theorem as_i64_or_none_table (σ : DataConv.Std) (pos : Pos) :
+    (∀ v, asI64OrNone σ (.int v) pos = .ok (some v)) ∧
+    (∀ b, asI64OrNone σ (.float b) pos = .ok (some (σ.floatAsI64 b))) ∧
+    (∀ b, asI64OrNone σ (.bool b) pos = .ok (some (if b then 1 else 0))) ∧
+    (∀ s, asI64OrNone σ (.string s) pos = .ok (σ.atoiI64 s)) ∧
+    asI64OrNone σ .empty pos = .ok none ∧
+    (∀ b, asI64OrNone σ (.dateTime b) pos = .ok (some (σ.floatAsI64 b))) ∧
+    (∀ s, asI64OrNone σ (.dateTimeIso s) pos = .ok (σ.atoiI64 s)) ∧
+    (∀ s, asI64OrNone σ (.durationIso s) pos = .ok (σ.atoiI64 s)) :=
+  ⟨fun _ => rfl, fun _ => rfl, fun _ => rfl, fun _ => rfl, rfl, fun _ => rfl, fun _ => rfl, fun _ => rfl⟩
+
+/-- `…_or_string`: the accessor's value, or else the `Display` text of the serde image (`""` for `Empty`,
+    `true`/`false`, the ISO text) -/
+theorem as_or_string_spec (σ : DataConv.Std) (d : Data) (pos : Pos) (h : d.isError = false) :
+    asI64OrString σ d pos = .ok (match (DataConv.viewData σ (toConv (serdeImage d))).asI64 with
+      | some v => .ok v
+      | none => .error (displayData σ (serdeImage d))) ∧
+    asF64OrString σ d pos = .ok (match (DataConv.viewData σ (toConv (serdeImage d))).asF64 with
+      | some v => .ok v
+      | none => .error (displayData σ (serdeImage d))) := by
+  cases d <;> first | exact ⟨rfl, rfl⟩ | simp [Data.isError] at h
+
+/-- `_or_none` is `_or_string` with the text dropped -/
+theorem as_or_none_of_or_string (σ : DataConv.Std) (d : Data) (pos : Pos) :
+    asI64OrNone σ d pos = (asI64OrString σ d pos).map (fun r => match r with | .ok v => some v | .error _ => none) ∧
+    asF64OrNone σ d pos = (asF64OrString σ d pos).map (fun r => match r with | .ok v => some v | .error _ => none) := by
+  unfold asI64OrNone asI64OrString asF64OrNone asF64OrString
+  cases hd : dataOfCell d pos with
+  | ok x =>
+    simp only [DRes.map]
+    constructor
+    · cases (DataConv.viewData σ (toConv x)).asI64 <;> rfl
+    · cases (DataConv.viewData σ (toConv x)).asF64 <;> rfl
+  | err e => exact ⟨rfl, rfl⟩
+  | panic s => exact ⟨rfl, rfl⟩
+
+/-! ## `with_deserialize_headers` -/
+
+/-- `with_deserialize_headers::<T>()` for a struct `T` with fields `fs` IS `with_headers(fs)` -/
+theorem with_deserialize_headers_eq (std : Std) (fs : List Str) (r : Rng Data) :
+    withDeserializeHeaders (some fs) = .custom fs ∧
+    new std (withDeserializeHeaders (some fs)) r = new std (.custom fs) r := ⟨rfl, rfl⟩
+
+/-- for a `T` that is not a struct (tuple, sequence, map) no header is requested: no column is selected and
+    every record is handed an empty sequence / map -/
+theorem with_deserialize_headers_non_struct {std : Std} {r : Rng Data} {st : DeState}
+    (h : new std (withDeserializeHeaders none) r = .ok st) :
+    st.colIdx = [] ∧ ∀ row pos sh, rowItem st.colIdx st.headers row pos sh = .seq 0 [] ∨
+      rowItem st.colIdx st.headers row pos sh = .map [] := by
+  have hc : st.colIdx = [] := by
+    unfold withDeserializeHeaders new at h
+    simp only [Option.getD_none] at h
+    cases hr : Range.rows r with
+    | nil => simp [hr] at h; subst h; rfl
+    | cons hd rest =>
+      simp only [hr] at h
+      cases hh : headerRow std hd (r.start.getD (0, 0)) with
+      | ok hs => simp [hh, customIdx, mapMD] at h; subst h; rfl
+      | err e => simp [hh] at h
+      | panic s => simp [hh] at h
+  refine ⟨hc, ?_⟩
+  intro row pos sh
+  rw [hc]
+  cases sh with
+  | seq => left; rfl
+  | map => cases st.headers with
+    | none => left; rfl
+    | some hs => right; rfl
 
 /-! ## the hypotheses are satisfiable: a concrete range away from the origin -/
 
